@@ -103,7 +103,7 @@ def run(ctx):
     ctx.assume('oracle: explicit cgs factors (1 mJy = 1e-26 erg/s/cm2/Hz, 1 W/m2 = 1e3 erg/s/cm2, L = F d^2 with d in cm as the statement says)',
                'rtol 1e-12', 'a file without the DISTANCE keyword is read as being at 1 kpc (the fallback the reader documents)')
     ctx.require_events('direct:same-grid-other-distance', 'convert_flux:post', 'read:matrix', 'roundtrip:ABA', 'chain:ABC', 'refused:target', 'refused:stored')
-    ctx.require_regimes('stored:grid-shared-with-other-files', 'stored:desc-wav', 'stored:asc-wav', 'read-order:nu', 'read-order:wav', 'stored:nu-in-GHz', 'stored:no-distance', 'stored:error-column-other-unit', 'stored:float32')
+    ctx.require_regimes('read:frequencies-requested-not-in-Hz', 'stored:grid-shared-with-other-files', 'stored:desc-wav', 'stored:asc-wav', 'read-order:nu', 'read-order:wav', 'stored:nu-in-GHz', 'stored:no-distance', 'stored:error-column-other-unit', 'stored:float32')
     d = ctx.newdir('c15')
     names = list(UNITS)
     ic = 0
@@ -175,7 +175,12 @@ def run(ctx):
                     ctx.regime('read-order:' + order)
                     wit['order'] = order
                     try:
-                        r = SED.read(path, unit_flux=UNITS[b][0], order=order)
+                        # the spectral axis may be requested in any frequency / length unit (the values returned do not depend on it)
+                        ufreq = [u.Hz, u.GHz, u.THz, u.Hz][(ic + names.index(b)) % 4]
+                        uwav = [u.micron, u.nm, u.micron, u.mm][(ic + names.index(b)) % 4]
+                        if ufreq != u.Hz:
+                            ctx.regime('read:frequencies-requested-not-in-Hz')
+                        r = SED.read(path, unit_flux=UNITS[b][0], order=order, unit_freq=ufreq, unit_wav=uwav)
                     except Exception as exc:
                         ctx.raised(exc, 'read-raised:%s:%s' % (a, 'write' if spelling == '<SED.write>' else 'own'),
                                       'SED.read raised for supported units: %r' % (exc,), wit)
